@@ -1,10 +1,13 @@
 #!/bin/bash
-# tools/run_all.sh [quick|thorough]: run every claimed check once, print one line each.
-TIER=${1:-quick}
+# tools/run_all.sh [quick|thorough] [Cxx ...]: run every claimed check (or the ones named) once, print one line each.
+# RUN_ALL_LOG=dir keeps the complete output of each check in dir/Cxx.txt.
+TIER=${1:-quick}; shift
 cd "$(dirname "$0")/.."
-for id in $(python3 -c "import json; print(' '.join(c['property_id'] for c in json.load(open('MANIFEST.json'))['checks']))"); do
+ids=${@:-$(python3 -c "import json; print(' '.join(c['property_id'] for c in json.load(open('MANIFEST.json'))['checks']))")}
+for id in $ids; do
   s=$(date +%s)
   out=$(./check $id --tier $TIER 2>&1); rc=$?
   e=$(date +%s)
+  [ -n "$RUN_ALL_LOG" ] && { mkdir -p "$RUN_ALL_LOG"; echo "$out" > "$RUN_ALL_LOG/$id.txt"; }
   echo "$id rc=$rc $((e-s))s $(echo "$out" | grep -E '^(OK|VIOLATION)' | head -2 | cut -c1-160 | tr '\n' ' ')"
 done
